@@ -34,9 +34,8 @@ Proof.
 Qed.
 
 (* convTypeToTarget panics only for slice and map targets:
-   nil for a slice parameter (Type() of the zero reflect.Value), an element that converts to nil
-   (reflect.Append of the zero Value) or panics itself; a non-map for a map parameter (Key() of
-   a non-map type) or an element that panics *)
+   nil for a slice parameter (Type() of the zero reflect.Value) or an element whose conversion
+   panics itself; a non-map for a map parameter (Key() of a non-map type) or an element that panics *)
 Lemma conv_to_panic_iff : forall t v,
   conv_to t v = Panic <->
   match t with
